@@ -339,3 +339,50 @@ func VerifSELFBig() {
 	p := new(big.Int).Mul(big.NewInt(1000), big.NewInt(1000))
 	nd.Assert("self.big.concrete", p.String() == "1000000")
 }
+
+// select: non-blocking forms over nil / open-empty / buffered / closed channels.
+func VerifSELFSelect() {
+	var nilCh chan int
+	open := make(chan int, 1)
+	done := make(chan struct{})
+	k := nd.Pick("sel.k", 4)
+	if k >= 1 {
+		open <- 7
+	}
+	if k >= 2 {
+		close(done)
+	}
+	got, which := -1, 0
+	select {
+	case <-nilCh:
+		which = 1
+	case v := <-open:
+		got, which = v, 2
+	case <-done:
+		which = 3
+	default:
+		which = 4
+	}
+	nd.Reach("self.select.done")
+	nd.Observe(k)
+	switch k {
+	case 0:
+		nd.Assert("self.select.default", which == 4)
+	case 1:
+		nd.Assert("self.select.buffered", which == 2 && got == 7)
+	default:
+		nd.Assert("self.select.either-ready", (which == 2 && got == 7) || which == 3)
+	}
+	ctx, cancel := context.WithCancel(context.Background())
+	if k == 3 {
+		cancel()
+	}
+	cancelled := false
+	select {
+	case <-ctx.Done():
+		cancelled = true
+	default:
+	}
+	nd.Assert("self.select.ctx-done", cancelled == (k == 3))
+	cancel()
+}
